@@ -393,7 +393,9 @@ func containerRules(c *Ctx, rule string, fam string) {
 			n++
 			name := "dhcpv6.Options.GetOne"
 			ls := findScanLoops(f)
-			if len(ls) != 1 || !ccIsRecvColl(f, ls[0].coll) {
+			if ok, why, is := ccGetOneStd(c, f); is {
+				r.Check(ok, rule, key(name, "returns the first element whose Code() equals the argument"), c.P.pos(f.Pos()), "slices.IndexFunc over the receiver with the predicate element.Code() == argument; nil when not found", why)
+			} else if len(ls) != 1 || !ccIsRecvColl(f, ls[0].coll) {
 				und(name, "not one ascending scan of the receiver (idiom not recognised)")
 			} else {
 				l := ls[0]
@@ -1043,4 +1045,61 @@ func flagRules(c *Ctx, rule string) {
 	}
 	r.Count(rule, n)
 	r.Expect(rule, 4)
+}
+
+// ccGetOneStd: the standard-library form of GetOne —
+//
+//	i := slices.IndexFunc(o, func(e Option) bool { return e.Code() == code }); if i < 0 { return nil }; return o[i]
+//
+// (first match by the contract of IndexFunc). is=false when the function is not of this form at all.
+func ccGetOneStd(c *Ctx, f *ssa.Function) (ok bool, why string, is bool) {
+	var search *ssa.Call
+	allInstrs(f, func(in ssa.Instruction) {
+		if cl, isCall := in.(*ssa.Call); isCall && cl.Call.StaticCallee() != nil && cl.Call.StaticCallee().Origin() != nil && funcKey(cl.Call.StaticCallee().Origin()) == "slices.IndexFunc" {
+			search = cl
+		}
+	})
+	if search == nil {
+		return false, "", false
+	}
+	if len(search.Call.Args) != 2 || !ccIsRecvColl(f, search.Call.Args[0]) {
+		return false, "IndexFunc does not search the receiver", true
+	}
+	// the predicate: a closure whose only return is param.Code() == captured argument
+	mc, isMC := search.Call.Args[1].(*ssa.MakeClosure)
+	if !isMC {
+		return false, "the predicate is not a closure of this method", true
+	}
+	pf, _ := mc.Fn.(*ssa.Function)
+	if pf == nil || len(pf.Params) != 1 || len(returnsOf(pf)) != 1 {
+		return false, "the predicate is not a single comparison", true
+	}
+	rv := returnsOf(pf)[0].Results[0]
+	bo, isBo := rv.(*ssa.BinOp)
+	if !isBo || bo.Op != token.EQL {
+		return false, "the predicate is not an equality test", true
+	}
+	isElemCode := func(v ssa.Value) bool { x, ok := isCodeInvoke(v); return ok && x == ssa.Value(pf.Params[0]) }
+	sx := c.Sx()
+	want := sx.Of(f.Params[1]).String()
+	isKey := func(v ssa.Value) bool { return sx.Of(v).String() == want }
+	if !((isElemCode(bo.X) && isKey(bo.Y)) || (isElemCode(bo.Y) && isKey(bo.X))) {
+		return false, "the predicate does not compare the element's Code() with the argument (compares with " + sx.Of(bo.Y).String() + ")", true
+	}
+	// returns: nil under idx < 0, recv[idx] otherwise
+	for _, rt := range returnsOf(f) {
+		v := rt.Results[0]
+		if isNilConst(v) {
+			continue
+		}
+		u, isU := v.(*ssa.UnOp)
+		var ia *ssa.IndexAddr
+		if isU && u.Op == token.MUL {
+			ia, _ = u.X.(*ssa.IndexAddr)
+		}
+		if ia == nil || !ccIsRecvColl(f, ia.X) || ia.Index != ssa.Value(search) {
+			return false, "a return is neither nil nor the receiver's element at the index found", true
+		}
+	}
+	return true, "", true
 }
